@@ -68,26 +68,31 @@ def confirm(d):
         out['suite'] = c.stdout.strip().splitlines()
         out['suite_wall_s'] = round(time.time() - t)
         bad = [l.strip() for l in out['suite'][1:]]
-        # re-run the files of failing stable tests once, alone (timing-sensitive tests under load)
-        if bad:
-            files = sorted({'/'.join(l.split()[1].split('::')[0].split('.')) + '.py' for l in bad})
+        # timing-sensitive tests (quart/aiohttp fixtures race the server start) fail at random under load, also on the pristine
+        # tree: re-run exactly the failing stable tests, alone, up to three rounds; a test counts as passing if it passes once
+        import xml.etree.ElementTree as ET
+        rounds = 0
+        while bad and rounds < 3:
+            rounds += 1
+            ids = []
+            for l in bad:
+                name = l.split(None, 1)[1]
+                cls, _, test = name.partition('::')
+                ids.append('/'.join(cls.split('.')) + '.py::' + test)
             xml2 = os.path.join(d, 'suite_rerun.xml')
-            sh(['unshare', '-n', 'sh', '-c',
-                'ip link set lo up; exec %s -m pytest -q -p no:cacheprovider --timeout=900 --junitxml=%s %s' % (PY, xml2, ' '.join(files))],
-               cwd=wt, env=env)
-            import xml.etree.ElementTree as ET
+            subprocess.run(['unshare', '-n', 'sh', '-c', 'ip link set lo up; exec "$@"', 'sh', PY, '-m', 'pytest', '-q', '-p', 'no:cacheprovider',
+                            '--timeout=900', '--junitxml=' + xml2] + ids, cwd=wt, env=env, capture_output=True, text=True)
             res = {}
             try:
                 for tc in ET.parse(xml2).iter('testcase'):
-                    res['%s::%s' % (tc.get('classname'), tc.get('name'))] = not any(ch.tag in ('failure', 'error') for ch in tc)
+                    res['%s::%s' % (tc.get('classname'), tc.get('name'))] = not any(ch.tag in ('failure', 'error', 'skipped') for ch in tc)
             except Exception:
                 pass
-            still = [l for l in bad if not res.get(l.split()[1], False)]
-            out['suite_rerun_still_failing'] = still
-            bad = still
-            for x in (xml2,):
-                if os.path.exists(x):
-                    os.unlink(x)
+            if os.path.exists(xml2):
+                os.unlink(xml2)
+            bad = [l for l in bad if not res.get(l.split(None, 1)[1], False)]
+        out['suite_rerun_rounds'] = rounds
+        out['suite_rerun_still_failing'] = bad
         if os.path.exists(xml):
             os.unlink(xml)
         out['suite_ok'] = not bad
